@@ -29,27 +29,35 @@ ASSUME = [
     "TotalAlloc per decode <= (64 + 2*sizeof(largest vector element type)) * len(input) + 8 KiB",
 ]
 
-PARTS = 8
-
-
 def export_cases(ctx):
+    """Runs Parts TLC processes (one worker each: export order) and returns (path of the NDJSON file, #cases, #inputs)."""
     cfg = ctx.pick("MCTLSCodec.cfg", "MCTLSCodecThorough.cfg")
-    parts = PARTS if not ctx.thorough() else min(16, os.cpu_count() or 8)
+    parts = ctx.pick(8, 48)
+    pool = min(parts, ctx.pick(8, 16), os.cpu_count() or 8)
 
     def one(p):
-        return ctx.tlc("codec", "MCTLSCodec", cfg, workers=1, env={"VERIF_PART": p, "VERIF_PARTS": parts},
-                       label="%s-part%d" % (cfg, p), timeout=ctx.pick(900, 3000),
-                       java_opts=["-Xmx%dm" % ctx.pick(1500, 3000)])
+        r = ctx.tlc("codec", "MCTLSCodec", cfg, workers=1, env={"VERIF_PART": p, "VERIF_PARTS": parts},
+                    label="%s-part%d" % (cfg, p), timeout=ctx.pick(900, 3000),
+                    java_opts=["-Xmx1500m", "-XX:ParallelGCThreads=2"])
+        cases = r.records.pop("CASE", [])
+        r.out = ""
+        path = ctx.write_ndjson("cases-part%d.ndjson" % p, cases)
+        return path, len(cases), sum(len(c["ins"]) for c in cases)
 
-    with concurrent.futures.ThreadPoolExecutor(max_workers=parts) as ex:
+    with concurrent.futures.ThreadPoolExecutor(max_workers=pool) as ex:
         results = list(ex.map(one, range(parts)))
-    cases = []
-    for r in results:
-        cases += r.records.get("CASE", [])
-    if len(cases) < 1000:
-        raise Infra("TLC exported only %d cases" % len(cases))
+    path = os.path.join(ctx.work, "cases.ndjson")
+    with open(path, "w") as out:
+        for part, _, _ in results:
+            with open(part) as f:
+                for line in f:
+                    out.write(line)
+            os.remove(part)
+    ncases, ninputs = sum(r[1] for r in results), sum(r[2] for r in results)
+    if ncases < 1000:
+        raise Infra("TLC exported only %d cases" % ncases)
     ctx.exhaustive = True
-    return cases
+    return path, ncases, ninputs
 
 
 def run(ctx, replay=None):
@@ -66,11 +74,8 @@ def run(ctx, replay=None):
             ctx.go_test("c09", run="TestReplayRandom$", env={"VERIF_CASES": path})
         return
     # 1. TLC: the laws on the model, for every enumerated (type, value, byte string); every case exported
-    cases = export_cases(ctx)
-    ninputs = sum(len(c["ins"]) for c in cases)
-    ctx.log("cases: %d (type, value) pairs, %d byte strings" % (len(cases), ninputs))
-    path = ctx.write_ndjson("cases.ndjson", cases)
-    del cases
+    path, ncases, ninputs = export_cases(ctx)
+    ctx.log("cases: %d (type, value) pairs, %d byte strings" % (ncases, ninputs))
     # 2. every case against tls.Marshal / tls.Unmarshal on run-time built Go types
     ctx.go_test("c09", run="TestReplay$", env={"VERIF_CASES": path}, timeout=ctx.pick(900, 3000))
     # 3. random types / values / byte strings against the reference codec (tied to the spec by step 2)
